@@ -34,8 +34,7 @@ trait FieldElement: Sized + Copy + Clone + PartialEq + Eq + Debug {
     fn one() -> (r: Self)
         ensures r.ok(), r.val() == Self::s_one();
     fn is_zero(&self) -> (r: bool)
-        requires self.ok()
-        ensures r == (self.val() == Self::s_zero());
+        ensures self.ok() ==> r == (self.val() == Self::s_zero());
     fn fp_sqr(&self) -> (r: Self)
         requires self.ok()
         ensures r.ok(), r.val() == Self::s_mul(self.val(), self.val());
@@ -642,7 +641,7 @@ impl FieldElement for Fp {
 
     fn is_zero(&self) -> bool {
         proof {
-            lemma_fp9_zero(self@);
+            if canon9(self@) { lemma_fp9_zero(self@); }
             lemma_val4_zero(self@);
             lemma_fp9_seq1(fe9(self@), 0);
         }
